@@ -10,6 +10,7 @@ mod engine;
 mod gdsref;
 mod gen_conv;
 mod gen_gds;
+mod gen_lef;
 mod gen_nlib;
 mod hashseed;
 mod rng;
@@ -89,6 +90,7 @@ fn main() {
             }
         }
         "selftest" => selftest(&args),
+        "dbg-lef" => { debug_lef_rejects(); 0 }
         "c20-child" => checks::c20::child_main(&args),
         _ => {
             eprintln!("unknown command");
@@ -150,6 +152,24 @@ fn selftest(args: &[String]) -> i32 {
         _ => {
             eprintln!("unknown selftest");
             2
+        }
+    }
+}
+
+#[allow(dead_code)]
+pub fn debug_lef_rejects() {
+    use crate::rng::Tape;
+    let mut shown = 0;
+    for i in 0..5000u64 {
+        let mut t = Tape::record(i);
+        let (text, _) = gen_lef::gen_lef_text(&mut t, false);
+        std::fs::write("/tmp/dbg.lef", &text).unwrap();
+        if let Err(e) = lef21::LefLibrary::open("/tmp/dbg.lef") {
+            println!("---- {:?}\n{}", e, text);
+            shown += 1;
+            if shown > 2 {
+                break;
+            }
         }
     }
 }
